@@ -214,17 +214,27 @@ def c19_clone(ctx, prog):
         raise AnalysisBroken("struct reproc::options not found")
     fields = [f["name"] for f in rec[0]["fields"]]
     assigned = {}
+    # the copy being built is the local the function returns; the source is its parameter (whatever they are called)
+    src_name = F.params[0]["name"] if F.params else "other"
+    dst_name = "clone"
+    for n in F.walk():
+        if n["k"] == "ReturnStmt" and n.get("c"):
+            r = cstrip(n["c"][0])
+            while r["k"] in ("CXXConstructExpr",) and r.get("c"):
+                r = cstrip(r["c"][0])
+            if r["k"] == "DeclRefExpr":
+                dst_name = r["name"]
     for n in F.walk():
         if n["k"] in ("BinaryOperator", "CXXOperatorCallExpr") and (n.get("op") == "=" or n.get("callee") == "operator="):
             kids = n["c"] if n["k"] == "BinaryOperator" else n["c"][1:]
             lhs, rhs = kids[0], kids[1]
             fp = chain(lhs)
-            if fp and fp[0] == "clone" and fp[1]:
+            if fp and fp[0] == dst_name and fp[1]:
                 rp = chain_any(rhs)
                 assigned.setdefault(fp[1][0], []).append((fp[1], rp))
     for f in fields:
         subs = assigned.get(f, [])
-        ok = bool(subs) and all(rp is not None and rp[0] == "other" and rp[1][:len(lp)] == lp for lp, rp in subs)
+        ok = bool(subs) and all(rp is not None and rp[0] == src_name and rp[1][:len(lp)] == lp for lp, rp in subs)
         # a struct member may be copied member-wise: then every sub member must be covered
         if subs and any(len(lp) > 1 for lp, rp in subs):
             sub_rec = [r for r in prog.records_all if r.get("parent") == "options" and any(ff["name"] == subs[0][0][1] for ff in r["fields"])]
